@@ -793,7 +793,11 @@ def exact_check_pair2(c, o, dist=None):
                      clause="used in all later propagation")
                 bad = True
                 break
-            if not abs(got[1] - want) <= (1e-9 + 1e4 * tol) * math.sqrt(T):
+            # an uncertainty, too, is judged relative to the size of what it is formed from: with a
+            # value in use that is exactly 0 (a cancelling weighted mean) the derivative terms are 0
+            # exactly and pure rounding of the value (1e-15 of the readings) in the library
+            T_mag = sum(abs(t) for t in radicand_terms(sh, k1, k2, mag_a, ea, mag_b, eb, r))
+            if not abs(got[1] - want) <= (1e-9 + 1e4 * tol) * math.sqrt(T) + 1e-11 * math.sqrt(T_mag):
                 fail("pair2:downstream:{}:error".format(shape),
                      "after {} the uncertainty of {} is not sqrt(sum (d_i sigma_i)^2 + 2 rho sigma_a sigma_b "
                      "d_a d_b) with the uncertainties in use sigma_a = {!r}, sigma_b = {!r} and rho = {!r}".format(
